@@ -36,7 +36,7 @@ EXTENDS Integers, Sequences, FiniteSets, TLC, Json
 CONSTANTS MaxSegs, Seps, Shape, Emit     \* Seps: the separators used, a subset of AllSeps
 
 Code == {"kwU", "kwL", "kwM", "ident", "num", "comma", "star", "eq", "lparen", "rparen"}
-Protected == {"strKw", "strMulti", "strEsc", "qidKw", "btKw", "cmtLine", "cmtBlock", "dollarMulti"}
+Protected == {"strKw", "strMulti", "strEsc", "strBs", "qidKw", "btKw", "cmtLine", "cmtPlain", "cmtBlockOne", "cmtBlock", "dollarMulti"}
 MultiLine == {"strMulti", "cmtBlock", "dollarMulti"}
 Segs == Code \cup Protected
 AllSeps == {"sp", "sp2", "tab", "nl", "nlIndent", "nlTab", "nlMixed", "blank3", "trail", "crlf"}
@@ -46,7 +46,7 @@ Rules == {"L001", "L002", "L003", "L007", "L010", "format"}
 \* a line comment runs to the end of its line: the separator after it must start with a line end
 EndsLine(sep) == sep \in {"nl", "nlIndent", "nlTab", "nlMixed", "blank3", "crlf"}
 Texts == UNION {{t \in [segs : [1..n -> Segs], seps : [1..(n - 1) -> Seps]] :
-                    \A i \in 1..(n - 1) : t.segs[i] = "cmtLine" => EndsLine(t.seps[i])} : n \in 1..MaxSegs}
+                    \A i \in 1..(n - 1) : t.segs[i] \in {"cmtLine", "cmtPlain"} => EndsLine(t.seps[i])} : n \in 1..MaxSegs}
 
 VARIABLES text, rule, out1, out2, pc
 vars == <<text, rule, out1, out2, pc>>
